@@ -21,6 +21,8 @@ def run(chk):
     r = vplib.tlc("Disclosure", "Disclosure.nonvacuous.cfg", timeout=600, allow_fail=True)
     if "NoDeviantAccepted" not in r.invariant_violated:
         raise vplib.Machinery("vacuity check failed: no deviating proof is accepted in the model")
+    if thorough:
+        vplib.coverage_check(chk, "Disclosure", "Disclosure.mc.quick.cfg", timeout=900)
     gen = "Disclosure.gen.thorough.cfg" if thorough else "Disclosure.gen.quick.cfg"
     g = vplib.tlc("DisclosureGen", gen, workers=1, timeout=2400)
     cases = sorted(set(g.tagged_raw_json("C")))
